@@ -33,7 +33,10 @@ open BufModel.Path BufModel.ImagePaths BufProofs.ImagePathsLemmas BufProofs.Wire
     (`getIsTargetFileForPathUncached` + `BuildImage`) either both fail with "no files"/"no
     targets", or both succeed with the same files carrying the same import flags and dependency
     lists; in particular the same non-imports.  (`Perm`: the two lists can be ordered
-    differently, see `targeting_order_counterexample`.) -/
+    differently, see `targeting_order_counterexample`.)  The files' extension bits (`File.ext`)
+    are handed on unchanged by both sides of the MODEL — `build` does not compute them; with the
+    bits as the compiler attaches them the statement is
+    `extbits_targeting_equivalence_modulo_unused` (Props/C11ExtBits.lean). -/
 theorem targeting_equivalence (ws : Workspace) (pths excl : List Str) (img : Image)
     (sc : SideConditions ws pths excl) (hfull : build ws = .ok img) :
     (∃ I M, filterImagePaths img pths excl = .ok I ∧
